@@ -696,11 +696,13 @@ func c34extractSigs(repo, genDir string) error {
 	if fd == nil {
 		return fmt.Errorf("%s: addTypeMethodsCTI not found", xfile)
 	}
-	var prologue, impl []string
+	var prologue, impl, implSigs []string
+	rx := &c34rx{x: x, env: map[string]c34sym{}}
 	for _, st := range nonEmpty(fd.Body.List) {
 		fs, ok := st.(*ast.ForStmt)
 		if !ok {
 			prologue = append(prologue, x.src(st))
+			rx.stmts([]ast.Stmt{st})
 			continue
 		}
 		prologue = append(prologue, "for "+x.src(fs.Init)+"; "+x.src(fs.Cond)+"; "+x.src(fs.Post))
@@ -722,10 +724,25 @@ func c34extractSigs(repo, genDir string) error {
 					body = append(body, x.src(s3))
 				}
 				impl = append(impl, fmt.Sprintf("(%s, %s)", leanStr(strings.Join(ls, ", ")), leanStr(strings.Join(body, " ; "))))
+				// the reflect signature of the case: evaluated in a copy of the prologue's environment
+				cx := &c34rx{x: x, env: map[string]c34sym{}}
+				for k, v := range rx.env {
+					cx.env[k] = v
+				}
+				sig, nsig := cx.stmts(cc.Body)
+				if nsig != 1 {
+					sig = fmt.Sprintf("{ recv := (.unknown %s), params := [], results := [], variadic := false }", leanStr(fmt.Sprintf("%d FuncOf calls", nsig)))
+				}
+				name := strings.Join(ls, ", ")
+				if u, err := strconv.Unquote(name); err == nil {
+					name = u
+				}
+				implSigs = append(implSigs, fmt.Sprintf("(%s, %s)", leanStr(name), sig))
 			}
 		}
 	}
 	fmt.Fprintf(&b, "def implPrologue : List String :=\n  %s\n\n", c34leanStrs(prologue))
+	fmt.Fprintf(&b, "/-- addTypeMethodsCTI: method name -> the signature passed to reflect.FuncOf (receiver = first parameter) -/\ndef implSigs : List (String × Sig) :=\n  %s\n\n", leanList(implSigs, "   "))
 	fmt.Fprintf(&b, "/-- addTypeMethodsCTI: case label -> statements -/\ndef implCases : List (String × String) :=\n  %s\n\n", leanList(impl, "   "))
 	var helpers []string
 	for _, d := range xf.Decls {
@@ -740,6 +757,164 @@ func c34extractSigs(repo, genDir string) error {
 	fmt.Fprintf(&b, "/-- the ctiXxx helpers: name -> body -/\ndef implHelpers : List (String × String) :=\n  %s\n\n", leanList(helpers, "   "))
 	fmt.Fprintf(&b, "end Gen.CtiSigs\n")
 	return os.WriteFile(filepath.Join(genDir, "CtiSigs.lean"), b.Bytes(), 0o644)
+}
+
+
+// ---------- part 3: xreflect/cti_method.go — symbolic reflect types of the implementation signatures ----------
+
+type c34rx struct {
+	x   *closureExtractor
+	env map[string]c34sym
+}
+
+func (s *c34rx) ty(e ast.Expr) string {
+	src := s.x.src(e)
+	switch e := e.(type) {
+	case *ast.Ident:
+		if v, ok := s.env[e.Name]; ok && v.ty != "" {
+			return v.ty
+		}
+	case *ast.SelectorExpr:
+		if src == "xt.rtype" {
+			return ".self"
+		}
+	case *ast.IndexExpr:
+		if s.x.src(e.X) == "rbasictypes" {
+			if sel, ok := e.Index.(*ast.SelectorExpr); ok && s.x.src(sel.X) == "r" {
+				return "(.basic " + leanStr(sel.Sel.Name) + ")"
+			}
+		}
+	case *ast.CallExpr:
+		switch s.x.src(e.Fun) {
+		case "r.SliceOf":
+			if len(e.Args) == 1 {
+				return "(.slice " + s.ty(e.Args[0]) + ")"
+			}
+		case "r.PtrTo":
+			if len(e.Args) == 1 {
+				return "(.ptr " + s.ty(e.Args[0]) + ")"
+			}
+		case "rt.Elem":
+			if len(e.Args) == 0 {
+				return ".elem"
+			}
+		case "rt.Key":
+			if len(e.Args) == 0 {
+				return ".key"
+			}
+		}
+	}
+	return "(.unknown " + leanStr(src) + ")"
+}
+
+func (s *c34rx) tuple(e ast.Expr) []string {
+	switch e := e.(type) {
+	case *ast.Ident:
+		if e.Name == "nil" {
+			return []string{}
+		}
+		if v, ok := s.env[e.Name]; ok && v.isTup {
+			return v.tuple
+		}
+	case *ast.CompositeLit:
+		if s.x.src(e.Type) == "[]r.Type" {
+			out := []string{}
+			for _, el := range e.Elts {
+				out = append(out, s.ty(el))
+			}
+			return out
+		}
+	}
+	return []string{"(.unknown " + leanStr(s.x.src(e)) + ")"}
+}
+
+func (s *c34rx) value(e ast.Expr) c34sym {
+	if cl, ok := e.(*ast.CompositeLit); ok && s.x.src(cl.Type) == "[]r.Type" {
+		return c34sym{isTup: true, tuple: s.tuple(e)}
+	}
+	if id, ok := e.(*ast.Ident); ok {
+		if v, ok := s.env[id.Name]; ok {
+			return v
+		}
+	}
+	return c34sym{ty: s.ty(e)}
+}
+
+func (s *c34rx) ite(cond string, a, b c34sym) c34sym {
+	if a.isTup || b.isTup {
+		out := c34sym{isTup: true, tuple: []string{}}
+		if len(a.tuple) != len(b.tuple) || !a.isTup || !b.isTup {
+			out.tuple = []string{"(.unknown " + leanStr("conditional tuple: "+cond) + ")"}
+			return out
+		}
+		for i := range a.tuple {
+			out.tuple = append(out.tuple, "(.ite "+leanStr(cond)+" "+a.tuple[i]+" "+b.tuple[i]+")")
+		}
+		return out
+	}
+	if b.ty == "" {
+		b.ty = "(.unknown \"unset\")"
+	}
+	return c34sym{ty: "(.ite " + leanStr(cond) + " " + a.ty + " " + b.ty + ")"}
+}
+
+// stmts interprets `n := e`, `var n T`, `if C { n = e } [else if D { n = e2 }]`; returns the FuncOf call found (if any)
+func (s *c34rx) stmts(list []ast.Stmt) (sig string, nsig int) {
+	var visit func(n ast.Node) bool
+	visit = func(n ast.Node) bool {
+		if call, ok := n.(*ast.CallExpr); ok && s.x.src(call.Fun) == "r.FuncOf" && len(call.Args) == 3 {
+			in, out := s.tuple(call.Args[0]), s.tuple(call.Args[1])
+			variadic := s.x.src(call.Args[2])
+			recv, params := "(.unknown \"no receiver\")", []string{}
+			if len(in) > 0 {
+				recv, params = in[0], in[1:]
+			}
+			if variadic != "true" && variadic != "false" {
+				variadic = "false"
+				recv = "(.unknown \"variadic\")"
+			}
+			sig = fmt.Sprintf("{ recv := %s, params := [%s], results := [%s], variadic := %s }", recv, strings.Join(params, ", "), strings.Join(out, ", "), variadic)
+			nsig++
+		}
+		return true
+	}
+	for _, st := range nonEmpty(list) {
+		switch st := st.(type) {
+		case *ast.AssignStmt:
+			if len(st.Lhs) == 1 && len(st.Rhs) == 1 {
+				if id, ok := st.Lhs[0].(*ast.Ident); ok && (st.Tok == token.DEFINE || st.Tok == token.ASSIGN) {
+					ast.Inspect(st.Rhs[0], visit)
+					if _, isCall := st.Rhs[0].(*ast.CallExpr); !isCall || strings.HasPrefix(s.x.src(st.Rhs[0]), "r.SliceOf") || strings.HasPrefix(s.x.src(st.Rhs[0]), "r.PtrTo") {
+						s.env[id.Name] = s.value(st.Rhs[0])
+					}
+					continue
+				}
+			}
+			ast.Inspect(st, visit)
+		case *ast.IfStmt:
+			if st.Init == nil {
+				if n, rhs, ok := onlyAssign(st.Body); ok {
+					cond := s.x.src(st.Cond)
+					old := s.env[n]
+					nv := s.value(rhs)
+					switch e := st.Else.(type) {
+					case nil:
+						s.env[n] = s.ite(cond, nv, old)
+						continue
+					case *ast.IfStmt:
+						if n2, rhs2, ok := onlyAssign(e.Body); ok && n2 == n && e.Else == nil && e.Init == nil {
+							s.env[n] = s.ite(cond, nv, s.ite(s.x.src(e.Cond), s.value(rhs2), old))
+							continue
+						}
+					}
+				}
+			}
+			ast.Inspect(st, visit)
+		default:
+			ast.Inspect(st, visit)
+		}
+	}
+	return sig, nsig
 }
 
 func c34extract(repo, genDir string) error {
